@@ -38,7 +38,7 @@ DEC_STEPS = [0.1, 0.2, 0.3, 0.7]
 
 
 def gen_series(rng):
-    n = rng.randint(1, 12)
+    n = rng.randint(1, 12) if rng.random() > 0.03 else rng.randint(200, 800)
     step = rng.choice(EXACT_STEPS if rng.random() < 0.6 else DEC_STEPS)
     if rng.random() < 0.5:
         x0, dx = 0.0, rng.choice([1.0, 600.0, 1800.0, 0.75])
